@@ -23,7 +23,7 @@ def sh(cmd, cwd=None, env=None, timeout=900):
 
 
 def verify(prop: str, x: str) -> bool:
-    wt = f"/tmp/seed_{prop}"
+    wt = os.environ.get("SEED_WT_PREFIX", "/tmp/seed_") + prop
     sd = f"{wt}/SEED/{x}"
     env = {"PYTHONPATH": f"{wt}/src", "YAW_NUM_THREADS": "1"}
     log = {}
